@@ -11,6 +11,13 @@ pub struct ContinuousOutput {
     n_states: usize,
 }
 
+/// Time slack of the segment lookup and of the range test of `Solution::sol` at an interval end `a`: 1e-12, or a few
+/// rounding errors of `a` where those are larger. The reported end of a step and `xold + h` of its segment may differ
+/// by a rounding error.
+pub(crate) fn time_tol(a: Float) -> Float {
+    (4.0 * Float::EPSILON * a.abs()).max(1e-12)
+}
+
 impl ContinuousOutput {
     /// Build a ContinuousOutput from per-step tuples of (cont, xold, h) and the selected method.
     pub(crate) fn from_segments(
@@ -107,13 +114,11 @@ impl ContinuousOutput {
             return None;
         }
         
-        let tol = 1e-12;
-        
         // Strict interpolation - only return segment if t is within it
         for seg in &self.segs {
             let left = seg.xold.min(seg.xold + seg.h);
             let right = seg.xold.max(seg.xold + seg.h);
-            if t >= left - tol && t <= right + tol {
+            if t >= left - time_tol(left) && t <= right + time_tol(right) {
                 return Some(seg);
             }
         }
@@ -126,13 +131,11 @@ impl ContinuousOutput {
             return None;
         }
         
-        let tol = 1e-12;
-        
         // First check if t is within any segment (interpolation)
         for seg in &self.segs {
             let left = seg.xold.min(seg.xold + seg.h);
             let right = seg.xold.max(seg.xold + seg.h);
-            if t >= left - tol && t <= right + tol {
+            if t >= left - time_tol(left) && t <= right + time_tol(right) {
                 return Some(seg);
             }
         }
